@@ -19,6 +19,19 @@ _U = {}
 DY = [("la", 1.0, "L"), ("lb", 1024.0, "L"), ("lc", 0.125, "L"), ("ld", 1024.0, "L"), ("ta", 1.0, "T"), ("tb", 16.0, "T"), ("na", 1.0, "N"), ("nq", 0.25, "N")]
 
 
+class _Units(dict):
+    """name -> Unit; a name outside the fixed tables is a unit EXPRESSION of the default registry (registry "rx" of the
+    specification: "1000*kg/m**3", "dyne*cm", "12*inch" ...) and is parsed from its text, once"""
+
+    def __init__(self, d, unyt):
+        super().__init__(d)
+        self._unyt = unyt
+
+    def __missing__(self, name):
+        u = self[name] = self._unyt.Unit(name)
+        return u
+
+
 def setup(common=None):
     import numpy as np
     import unyt
@@ -46,6 +59,7 @@ def setup(common=None):
     units["lapost"] = unyt.Unit("la", registry=reg3)
     for n in ("m", "km", "cm", "inch", "s", "ms", "dimensionless", "percent", "K", "degC"):
         units[n] = unyt.Unit(n)
+    units = _Units(units, unyt)
     _U.update(np=np, unyt=unyt, D=D, units=units, uq=unyt.unyt_quantity, ua=unyt.unyt_array, reg=reg)
     _U["helpers"] = {
         "allclose_units": unyt.allclose_units,
